@@ -50,6 +50,7 @@ GATES = {
     "op-contracts-ran": ["op_checksig", "op_checkmultisig", "op_checksig_schnorr", "op_checksigadd_schnorr"],
     "evaluate-rules": ["rule:p2sh", "rule:p2wpkh", "rule:p2wsh", "rule:p2tr-key", "rule:p2tr-script"],
     "in-place-histories": ["history:in-place-edit-then-verify"],
+    "keyless-attacker-fuzz": ["keyless:" + k for k in KINDS] + ["keyless:analyser-proved"],
     "shape-confusion-negatives-proved": ["negcls:witness-program-shape-in-scriptsig", "negcls:undefined-sighash-byte"],
 }
 
@@ -638,6 +639,130 @@ def mutations(rng, model, spent, index, meta):
         yield "legacy-style-spend-of-witness-output", m, s
 
 
+# ---- keyless attacker: structure-aware random scriptSigs / witnesses built WITHOUT any wallet key -----------------------
+FUZZ_OPS = [0x00, 0x4F, 0x51, 0x52, 0x53, 0x60, 0x61, 0x63, 0x64, 0x67, 0x68, 0x69, 0x6B, 0x6C, 0x73, 0x74, 0x75, 0x76, 0x77, 0x78, 0x7C, 0x82,
+            0x87, 0x88, 0x91, 0x92, 0x9A, 0x9B, 0xA8, 0xA9, 0xAA, 0xAC, 0xAD, 0xAE, 0xAF, 0xB1, 0xB2, 0xBA]
+
+
+def keyless_vocab(rng, model, spent, index, kind):
+    """Everything an attacker who holds NO key of the spent output can put into a scriptSig / witness: public items of
+    the honest spend (scripts, control block, public keys), own keys / scripts / hashes, and own *valid* signatures
+    over this transaction under every digest algorithm and script code in sight."""
+    taproot = kind.startswith("p2tr")
+    sig_at = set(sig_slots(model, index, kind))
+    ss = ss_cmds(model, index)
+    wit = [bytes(x) for x in model["ins"][index]["witness"]]
+    public = [c for p, c in enumerate(ss) if isinstance(c, bytes) and ("ss", p) not in sig_at and c]
+    public += [w for p, w in enumerate(wit) if ("wit", p) not in sig_at and w]
+    d = rng.randrange(1, ec.N)
+    pt = ec.mul(d)
+    sec_d, x_d = ec.sec(pt), ec.b32(pt[0])
+    d_even = d if pt[1] % 2 == 0 else ec.N - d
+    h_d = spend.hash160(sec_d)
+    own = [tc.script_bytes([0x51]), tc.script_bytes([sec_d, 0xAC]), tc.script_bytes([0x51, sec_d, 0x51, 0xAE]), tc.script_bytes([x_d, 0xAC]),
+           sh.p2pkh_script(h_d), b"\x00\x14" + h_d, b"\x51\x20" + x_d]
+    hashes = [h_d] + [spend.hash160(s) for s in own[:3]] + [sh.sha256(s) for s in own[:4]]
+    codes = [spent[index]["script"]] + [p for p in public if 1 <= len(p) <= 520][:3] + own[:5]
+    sigs = []
+    amount = spent[index]["amount"]
+    for code in codes:
+        for alg in ("legacy", "bip143"):
+            ht = rng.choice([1, 1, 1, 2, 3, 0x81])
+            try:
+                dg = sh.legacy(model, index, code, ht) if alg == "legacy" else sh.bip143(model, index, code, amount, ht)
+            except Exception:  # noqa: BLE001
+                continue
+            r_, s_, _, _ = ec.ecdsa_sign(d, int.from_bytes(dg, "big"))
+            sigs.append(ec.der(r_, s_) + bytes([ht]))
+    try:
+        sigs.append(ec.schnorr_sign(d_even, sh.bip341(model, index, spent, 0, 0, None, None), rng.randbytes(32))[0])
+        for leaf_script in [own[3]] + [p for p in public if len(p) < 200][:2]:
+            lh = sh.tapleaf_hash(0xC0, leaf_script)
+            sigs.append(ec.schnorr_sign(d_even, sh.bip341(model, index, spent, 0, 1, None, lh), rng.randbytes(32))[0])
+    except Exception:  # noqa: BLE001
+        pass
+    cb_own = bytes([0xC0 | rng.getrandbits(1)]) + x_d
+    misc = [b"", b"\x01", b"\x00", b"\x81", rng.randbytes(20), rng.randbytes(32), sec_d, x_d, cb_own, cb_own + rng.randbytes(32), b"\x50" + rng.randbytes(4)]
+    return {"public": public, "own": own, "hashes": hashes, "sigs": sigs, "misc": misc}
+
+
+def keyless_candidates(rng, model, spent, index, kind, count):
+    voc = keyless_vocab(rng, model, spent, index, kind)
+    items = voc["public"] + voc["own"] + voc["hashes"] + voc["sigs"] + voc["misc"]
+    ss0 = ss_cmds(model, index)
+    wit0 = [bytes(x) for x in model["ins"][index]["witness"]]
+    for _ in range(count):
+        m, s = clone(model, spent)
+        n_ss, n_w = rng.choice([0, 0, 1, 2, 3, 4, 6]), rng.choice([0, 0, 1, 2, 3, 4, 5])
+        ss = []
+        for _j in range(n_ss):
+            r = rng.random()
+            ss.append(rng.choice(FUZZ_OPS) if r < 0.3 else rng.choice(voc["sigs"]) if r < 0.5 and voc["sigs"] else rng.choice(items))
+        wit = [rng.choice(voc["sigs"]) if rng.random() < 0.35 and voc["sigs"] else rng.choice(items) for _j in range(n_w)]
+        if rng.random() < 0.5 and voc["sigs"]:
+            # themes: fragments that look like (or are) complete spends of the ATTACKER's own key / script, planted where the
+            # committed script is not - every digest / script-code combination is tried over the candidates
+            sig = rng.choice(voc["sigs"])
+            own, sec_d, x_d = voc["own"], voc["misc"][6], voc["misc"][7]
+            theme = rng.randrange(7)
+            if theme == 0:
+                ss, wit = [0, voc["hashes"][0]], [sig, sec_d]
+            elif theme == 1:
+                k = rng.randrange(3)
+                ss, wit = [0, sh.sha256(own[k])], [[], [sig], [b"", sig]][k] + [own[k]]
+            elif theme == 2:
+                ss, wit = [0x51, x_d], [sig]
+            elif theme == 3:
+                ss, wit = [0x51, x_d], [sig, own[3], voc["misc"][8]]
+            elif theme == 4:
+                k = rng.randrange(3)
+                ss, wit = [[], [sig], [0, sig]][k] + [own[k]], []
+            elif theme == 5:
+                ss, wit = [sig, sec_d], wit
+            else:
+                ss, wit = [own[5]], [sig, sec_d]  # own p2wpkh program as the "redeem script"
+            if rng.random() < 0.2:
+                ss.insert(rng.randrange(len(ss) + 1), rng.choice(FUZZ_OPS + items))
+        # keep the committed scripts in place most of the time so that they are reached and executed on attacker data
+        if kind.startswith("p2sh") and ss0 and rng.random() < 0.7:
+            ss.append(ss0[-1])
+        if kind in ("p2wsh-ms", "p2sh-p2wsh-ms") and wit0 and rng.random() < 0.7:
+            wit.append(wit0[-1])
+        if kind in ("p2tr-script-p2pk", "p2tr-ms-single", "p2tr-ms-multi", "p2tr-script-p2pk-annex") and len(wit0) >= 2 and rng.random() < 0.7:
+            tail = wit0[-3:] if sh.annex_of(wit0) is not None else wit0[-2:]
+            wit.extend(tail if rng.random() < 0.8 else tail[:2])
+        if kind.startswith("p2pkh") and rng.random() < 0.3:
+            ss = ss[:2] + [rng.choice(voc["sigs"] or [b""]), rng.choice([c for c in ss0 if isinstance(c, bytes)] or [b""])]
+        try:
+            set_ss(m, index, ss)
+        except Exception:  # noqa: BLE001
+            continue
+        m["ins"][index]["witness"] = [bytes(x) for x in wit]
+        yield m, s
+
+
+def keyless_fuzz(ctx, rng, kind, model, spent, index, count):
+    """No candidate carries a signature by a key of the spent output (the attacker's keys are fresh), so by the
+    statement every one of them has to be refused - whatever items or opcodes it contains."""
+    for m, s in keyless_candidates(rng, model, spent, index, kind, count):
+        if ctx.out_of_time():
+            return
+        info = spend.analyse(m, s, index)
+        if info["authorised"] is True:
+            ctx.count("keyless:analyser-says-authorised(harness contradiction)")
+            raise RuntimeError(f"harness: analyser authorises a keyless spend: {info}")
+        o = lib_verify(m, s, index)
+        ctx.monitor("verify_input-keyless")
+        ctx.count("keyless:" + kind)
+        ctx.count("keyless:analyser-" + ("proved" if info["authorised"] is False else "undecided"))
+        if o[0] == "ok" and o[1]:
+            ctx.violation(f"verify-accepts-keyless-spend:{kind}", f"verify_input returned {o[1]!r} for a scriptSig/witness built without any key of the output; analyser: {info['why']}",
+                          {"op": "keyless", "model": m, "spent": s, "index": index, "kind": kind})
+        elif o[0] == "exc":
+            ctx.rejected_by_exception += 1
+        ctx.case((tc.encode(m), [(x["amount"], x["script"]) for x in s], index, "keyless"))
+
+
 # ---- the boundary monitor ------------------------------------------------------------------------------------------
 def lib_verify(model, spent, index):
     def go():
@@ -763,6 +888,7 @@ def one_job(ctx, rng, kind):
             judge_negative(ctx, cls, kind, m2, s2, index)
         except ValueError:
             ctx.count("mut:unbuildable")
+    keyless_fuzz(ctx, rng, kind, model, spent, index, 30 if small else 250)
 
 
 def shards(tier, seed):
@@ -796,5 +922,10 @@ def replay(case, ctx):
             ctx.violation(f"verify-accepts-unauthorised:{case.get('kind')}:{case.get('cls')}", f"{o}; analyser {info['why']}", case)
         if info["authorised"] is True and case.get("cls") == "positive" and not (o[0] == "ok" and o[1] is True):
             ctx.violation(f"verify-rejects-authorised:{case.get('kind')}", f"{o}", case)
+    elif case.get("op") == "keyless":
+        o = lib_verify(case["model"], case["spent"], case["index"])
+        ctx.monitor("verify_input-replay")
+        if o[0] == "ok" and o[1]:
+            ctx.violation(f"verify-accepts-keyless-spend:{case.get('kind')}", f"{o}", case)
     else:
         one_job(ctx, ctx.rng("replay"), case.get("kind", "p2wpkh"))
